@@ -115,12 +115,39 @@ Proof.
   f_equal. unfold Rdiv. rewrite Rmult_1_l. f_equal. change (10 ^ 18)%Z with (10 ^ Z.of_nat 18)%Z. rewrite <- pow_IZR. reflexivity.
 Qed.
 
-From Interval Require Import Tactic.
-
+(* the two numeric constants, by hand (no numeric tactic: the independent checker re-checks these in seconds) *)
+Lemma e_gt_2 : 2 < exp 1. Proof. pose proof (exp_ineq1 1 ltac:(lra)). lra. Qed.
+Lemma ln10_le : ln 10 <= 7 / 2.
+Proof.
+  (* 10 = e^2 * (10 / e^2) with 10 / e^2 < 10 / 4, and ln x <= x - 1 *)
+  assert (E2 : 4 < exp 2). { replace 2 with (1 + 1) by lra. rewrite exp_plus. pose proof e_gt_2. nra. }
+  assert (P : 0 < exp 2) by apply exp_pos.
+  replace 10 with (exp 2 * (10 / exp 2)) by (field; lra).
+  rewrite ln_mult; [|assumption|apply Rdiv_lt_0_compat; lra]. rewrite ln_exp.
+  pose proof (ln_le_minus_1 (10 / exp 2) ltac:(apply Rdiv_lt_0_compat; lra)) as L.
+  assert (10 / exp 2 < 10 / 4). { unfold Rdiv. apply Rmult_lt_compat_l; [lra|]. apply Rinv_lt_contravar; lra. }
+  lra.
+Qed.
+Lemma ln2_le : ln 2 <= 1. Proof. pose proof (ln_le_minus_1 2 ltac:(lra)). lra. Qed.
+Lemma pow10_18_pos : 0 < 10 ^ 18. Proof. apply pow_lt; lra. Qed.
+Lemma inv18_le_1 : / 10 ^ 18 <= 1.
+Proof. rewrite <- Rinv_1. apply Rinv_le_contravar; [lra|]. apply pow_R1_Rle; lra. Qed.
 Lemma delta_small : / 10 ^ 18 <= exp (-1).
-Proof. interval. Qed.
+Proof.
+  replace (exp (-1)) with (exp (- (1))) by (f_equal; lra).
+  rewrite exp_Ropp. apply Rinv_le_contravar; [apply exp_pos|].
+  apply Rle_trans with 3; [apply exp_le_3|]. apply Rle_trans with (10 ^ 1); [lra|]. apply Rle_pow; [lra|lia].
+Qed.
 Lemma delta_tail : / 10 ^ 18 * (- ln (/ 10 ^ 18) + 2 * ln 2) <= / 10 ^ 16.
-Proof. interval. Qed.
+Proof.
+  pose proof pow10_18_pos as P18.
+  rewrite ln_Rinv by assumption. rewrite Ropp_involutive. rewrite ln_pow by lra.
+  pose proof ln10_le. pose proof ln2_le.
+  assert (B : INR 18 * ln 10 + 2 * ln 2 <= 100). { replace (INR 18) with 18 by (cbn; lra). lra. }
+  replace (/ 10 ^ 16) with (/ 10 ^ 18 * 100).
+  - apply Rmult_le_compat_l; [left; apply Rinv_0_lt_compat; assumption|exact B].
+  - replace (10 ^ 18) with (10 ^ 16 * 100) by (cbn; lra). rewrite Rinv_mult. field; try (apply pow_nonzero; lra).
+Qed.
 
 Lemma hx_nonneg x : 0 < x -> x <= 1 -> 0 <= hx x.
 Proof.
@@ -158,7 +185,7 @@ Proof.
   assert (T0 : 0 <= sumR (fun j => hx (pk lam (K + j))) M).
   { apply sumR_nonneg. intros j. apply hx_nonneg; [apply pk_pos; exact Hl|].
     eapply Rle_trans; [apply pk_geometric; assumption|]. assert (P2 : 1 <= 2 ^ j) by (clear; induction j; cbn [pow]; lra).
-    apply Rle_trans with (pk lam K); [|assert (/ 10 ^ 18 <= 1) by interval; lra].
+    apply Rle_trans with (pk lam K); [|pose proof inv18_le_1; lra].
     unfold Rdiv. rewrite <- (Rmult_1_r (pk lam K)) at 2. apply Rmult_le_compat_l; [apply Rlt_le, pk_pos; exact Hl|].
     rewrite <- Rinv_1. apply Rinv_le_contravar; lra. }
   set (S := partial_entropy lam K) in *. set (t := sumR (fun j => hx (pk lam (K + j))) M) in *. set (v := IZR vn / IZR vd) in *.
